@@ -78,6 +78,17 @@ pub fn run_segment<K: IndexType>(ops: &[Value], log: &mut Log) {
                 uf = uf.clone();
                 rs("ok")
             }
+            "clone_from" => {
+                // into a destination with its own (smaller or larger) history
+                let m = op["x"].as_u64().unwrap_or(0) as usize;
+                let r = guard(|| {
+                    let mut d: UnionFind<K> = UnionFind::new(m.min(<K as IndexType>::max().index()));
+                    if m >= 2 { d.union(K::new(0), K::new(1)); }
+                    d.clone_from(&uf);
+                    d
+                });
+                match r { Ok(d) => { uf = d; rs("ok") } Err(()) => rpanic() }
+            }
             "len" => ri(uf.len()),
             "is_empty" => rb(uf.is_empty()),
             "capacity" => {
@@ -162,7 +173,8 @@ pub fn gen_segment(rng: &mut Rng, ix: &str, n: usize, len: usize, grow: bool) ->
         let x = arg(rng, cur);
         let y = arg(rng, cur);
         let e = match r {
-            0..=17 => json!({"op":"union","x":x,"y":y}),
+            0..=16 => json!({"op":"union","x":x,"y":y}),
+            17 => json!({"op":"clone_from","x":if x % 2 == 0 { x / 2 } else { n + 3 }}),
             18..=35 => json!({"op":"try_union","x":x,"y":y}),
             36..=43 => json!({"op":"find","x":x}),
             44..=51 => json!({"op":"try_find","x":x}),
